@@ -211,7 +211,8 @@ life_scenario(int idx) {
 		sc_fail("callback-cut-short", "the pool was torn down while a message callback was still running");
 
 	/* hooks: exactly once per thread that ran, the virtual thread included */
-	if (created) {
+balances:
+	{
 		for (n = 0; n <= v->W; n ++) {
 			if (tpc_starts[n] > 1)
 				sc_fail("start-hook-twice", "start hook ran %d times for thread %d", tpc_starts[n], n);
@@ -220,10 +221,9 @@ life_scenario(int idx) {
 			if (tpc_starts[n] != tpc_stops[n])
 				sc_fail("hook-imbalance", "thread %d: %d start hook(s) but %d stop hook(s) after destroy", n, tpc_starts[n], tpc_stops[n]);
 		}
-		if (1 != tpc_starts[v->W])
+		if (created && 1 != tpc_starts[v->W])
 			sc_fail("pvt-hook-missing", "virtual thread start hook ran %d times", tpc_starts[v->W]);
 	}
-balances:
 	if (rd_pipe[0] >= 0) { close(rd_pipe[0]); close(rd_pipe[1]); }
 	if (0 != sc_threads_unjoined())
 		sc_fail("thread-not-joined", "%d created thread(s) were never joined", sc_threads_unjoined());
